@@ -319,4 +319,52 @@ pub fn run(run: &mut Run) {
             }
         }
     }
+
+    // ---- (e) dense small values: every ordered pair of all strings / byte strings of length <= 3
+    //      over {a, b}, all lists of length <= 2 over {1, 2} and a few numbers, under every binary
+    //      built-in and operator, written as literals (scanning / slicing code paths whose edge
+    //      cases depend on where a prefix of the needle occurs)
+    run.sub("dense-small-values");
+    {
+        let mut pool: Vec<String> = vec![];
+        let mut words: Vec<String> = vec![String::new()];
+        let mut last = vec![String::new()];
+        for _ in 0..3 {
+            let mut next = vec![];
+            for w in &last {
+                for c in ["a", "b"] {
+                    next.push(format!("{}{}", w, c));
+                }
+            }
+            words.extend(next.iter().cloned());
+            last = next;
+        }
+        for w in &words {
+            pool.push(format!("'{}'", w));
+        }
+        for w in &words {
+            pool.push(format!("b'{}'", w));
+        }
+        for l in ["[]", "[1]", "[2]", "[1, 1]", "[1, 2]", "[2, 1]", "[2, 2]", "{}", "{1: 2}", "{'a': 'b'}"] {
+            pool.push(l.to_string());
+        }
+        for n in ["0", "1", "2", "3", "-1", "0u", "1u", "3u", "0.5", "true", "null"] {
+            pool.push(n.to_string());
+        }
+        let templates = [
+            "X.contains(Y)", "X.startsWith(Y)", "X.endsWith(Y)", "X.matches(Y)", "X + Y", "X == Y", "X < Y", "X in Y", "X[Y]", "X - Y", "X * Y", "X / Y", "X % Y", "max(X, Y)", "min([X, Y])",
+            "contains(X, Y)", "[X].contains(Y)", "{X: Y}[X]", "X != Y ? X : Y", "size(X) + size(Y)", "string(X) + string(Y)", "bytes(X) + bytes(Y)", "(X + Y).contains(Y)", "(X + Y)[size(X)]",
+        ];
+        for t in templates.iter() {
+            for x in pool.iter() {
+                for y in pool.iter() {
+                    if !run.take() {
+                        continue;
+                    }
+                    let src = t.replace('X', x).replace('Y', y);
+                    run_program(run, "dense", &src, 8, &ctx);
+                }
+            }
+        }
+    }
 }
